@@ -24,6 +24,8 @@ def configs(ctx):
                  invariants=("HashInvX",)),
         F.Config("populated", full, 3 if q else 4, "mixed", init_jobs=2, init_cache=(False, True), limit=4000 if q else 150000,
                  invariants=("HashInvX", "CheckPassesX")),
+        F.Config("populated-rekey", ["open_id", "open_iter", "assign", "setkey", "update_sp", "sp_update", "readsp", "init", "docset"], 4 if q else 5, "int", init_jobs=2,
+                 init_cache=(False, True), limit=5000 if q else 200000, invariants=("HashInvX", "CheckPassesX"), properties=("NoClobber",)),
         F.Config("long-random", full + ["stray"], 0, "int", handles=("h1", "h2", "h3"), docvals=("d1", "d2"), files=("f1", "f2"), fvals=("c1", "c2"),
                  sim_num=60 if q else 2500, sim_depth=40 if q else 60, invariants=("HashInvX", "CheckPassesX")),
         F.Config("long-random-2p", ["open_sp", "open_id", "open_iter", "init", "remove", "setkey", "assign", "docset", "writefile", "clear", "reset", "move", "clone", "copy", "restart", "update_cache"],
